@@ -56,6 +56,9 @@ CONSTANTS
   FinOnlyClosed,   \* TRUE: "if t.FIN && half.closed" (today); FALSE: "if t.FIN" (before fix b39eea8)
   ReleaseSaved,    \* TRUE: closeHalfConnection releases the saved list (today); FALSE: before fix 82c8ff2
   CleanSkipFixed,  \* TRUE: cleanSG "skip = 0" (today); FALSE: the delta computation before fix ea98ddb
+  PagesFix,        \* FALSE: today's code; TRUE: proposed repair of the half.pages bookkeeping (cleanSG counts the pages
+                   \* a kept live packet is converted into, addPending uncounts the saved pages it drops)
+  Script,          \* <<>>: every scenario within the bounds; otherwise the one scenario to run (sequence of operations)
   ExportMod, ExportRem   \* behaviours whose hash % ExportMod = ExportRem are exported
 
 VARIABLES ops,       \* scenario so far (same format as ReasmGen)
@@ -245,7 +248,7 @@ AddPending(x, hr, firstSeq) ==
            s == SumLen(x, ids, 1)
        IN IF Add(x.heap[sv].seq, s) # firstSeq
           THEN \* non-continuous saved: drop them (p.release: pageCache.used only; half.pages is NOT adjusted)
-               [a |-> [ReleaseOnly(x, ids, 1) EXCEPT !.h[hr].saved = 0], s |-> 0]
+               [a |-> [ReleaseOnly(x, ids, 1) EXCEPT !.h[hr].saved = 0, !.h[hr].pages = IF PagesFix THEN @ - Len(ids) ELSE @], s |-> 0]
           ELSE [a |-> [x EXCEPT !.ret = ids \o @], s |-> s]
 
 (* addContiguous: tcpassembly.go:1149-1176; returns [a, last] *)
@@ -340,8 +343,9 @@ CSKeep(x, hr, all, j, skip, savedLast) ==
            \* live packet); if delta > skip { skip = 0 } else { skip -= delta }
            nskip == IF CleanSkipFixed THEN 0 ELSE (IF c = 0 THEN skip ELSE 0)
        IN IF r.a.panic THEN r.a
-          ELSE LET x2 == IF r.a.h[hr].saved = 0 THEN [r.a EXCEPT !.h[hr].saved = r.first]
-                         ELSE [r.a EXCEPT !.heap[savedLast].next = r.first, !.heap[r.first].prev = savedLast]
+          ELSE LET x1 == IF PagesFix /\ c = 0 THEN [r.a EXCEPT !.h[hr].pages = @ + r.n] ELSE r.a
+                   x2 == IF x1.h[hr].saved = 0 THEN [x1 EXCEPT !.h[hr].saved = r.first]
+                         ELSE [x1 EXCEPT !.heap[savedLast].next = r.first, !.heap[r.first].prev = savedLast]
                IN CSKeep(x2, hr, all, j + 1, nskip, r.last)
 
 CleanSG(x, hr) ==
@@ -485,7 +489,8 @@ Init == /\ ops = <<>>
 Do(op, x) ==
   LET evs == IF x.panic THEN Append(x.evs, [op |-> "panic"]) ELSE x.evs
       f == Feed(st, evs, 1, verdicts)
-  IN /\ ops' = Append(ops, op)
+  IN /\ Script = <<>> \/ (Len(ops) < Len(Script) /\ Script[Len(ops) + 1] = op)
+     /\ ops' = Append(ops, op)
      /\ a' = [x EXCEPT !.evs = <<>>, !.ret = <<>>, !.lp = NewLP, !.sg = NewSG, !.rvNext = -1]
      /\ st' = f[1] /\ verdicts' = f[2]
      /\ pred' = Append(pred, evs)
@@ -563,6 +568,6 @@ OpsHash(o, i, acc) ==
        IN OpsHash(o, i + 1, (acc * 131 + c) % 1000003)
 BehHash == (OpsHash(ops, 1, 7) + 17 * conf.isn + 5 * conf.limit + 3 * (conf.keep + 1) + (IF conf.force THEN 1 ELSE 0)
             + (IF conf.remove THEN 2 ELSE 0)) % ExportMod
-Complete == Len(ops) = MaxOps \/ a.panic
-Export == (Complete /\ BehHash = ExportRem) => PrintT("BEH " \o ToJson([cfg |-> conf, ops |-> ops, pred |-> pred, flags |-> a.flags]))
+Complete == Len(ops) = (IF Script = <<>> THEN MaxOps ELSE Len(Script)) \/ a.panic
+Export == (Complete /\ BehHash = ExportRem) => PrintT("BEH " \o ToJson([cfg |-> conf, ops |-> ops, pred |-> pred, flags |-> a.flags, verdicts |-> verdicts]))
 =============================================================================
